@@ -99,7 +99,7 @@ theorem refRow_congr (h : SameView cx cx') (t : Table) (r : Row) (rt : String) :
 
 theorem virtVal_congr (h : SameView cx cx') (t : Table) (r : Row) (c : Column) :
     virtVal cx t r c = virtVal cx' t r c := by
-  simp only [virtVal, h.schema, h.b]
+  simp only [virtVal, h.schema, h.b, table_congr h]
 
 theorem getVal_congr (h : SameView cx cx') (t : Table) (r : Row) (c : Column) :
     getVal cx t r c = getVal cx' t r c := by
